@@ -101,6 +101,13 @@ def gen_condition(rng, d, N, kind=None, sq=False):
         if kind == "real" and rng.random() < 0.2:
             c["special"] = "ones"
             c["vals"] = [[("1", "0")] for _ in range(N)]
+        elif kind == "real" and dtype in ("int64", "float64") and rng.random() < 0.25:
+            # a real field whose values happen to be 0 and 1 only (a defect count, an indicator stored as a number): still a FIELD —
+            # it is weighted and normalised as one, not treated as a boolean selection
+            c["special"] = "zero-one"
+            vals = [rng.choice(["0", "1"]) for _ in range(N)]
+            vals[0], vals[-1] = "1", "0"
+            c["vals"] = [[(v, "0")] for v in vals]
         else:
             c["vals"] = [[gen_value(rng, dtype)] for _ in range(N)]
         return c
@@ -872,6 +879,15 @@ def correspond(run):
         run.count(c, True)
         if w:
             fail.append((c, w))
+    # tie stream: lattices whose pair distances are exactly bin edges (exact float arithmetic)
+    for k, (n, d, rd) in enumerate([(3, 3, "0.25"), (4, 2, "0.5"), (3, 2, "0.25"), (4, 3, "0.5")]):
+        c = {"scale": True, "tie": True, "op": "gr", "skind": ["bool", "real"][k % 2], "species": 1 + k % 2, "sseed": 11 + k,
+             "n": n, "d": d, "N": n ** d, "rdelta": rd}
+        w = failing_scale(c)
+        run.hist("stream", "tie-lattice:" + c["skind"])
+        run.count(c, True)
+        if w:
+            fail.append((c, w))
     # size stream for S(q): particle numbers (and selection sizes) at and around block boundaries 2^k, 3·2^k, 1000
     for kind in (SQSIZE_KINDS if quick else SQSIZE_KINDS * 4):
         c = gen_sqsize_case(run.rng, kind)
@@ -973,7 +989,17 @@ def failing_scale(c):
     from gen import scale
     from PyMatterSim.reader.reader_utils import SingleSnapshot
     from PyMatterSim.static.gr import conditional_gr
-    pos, types, L = scale.scale_arrays(c)
+    if c.get("tie"):
+        # tie stream: a simple (hyper)cubic lattice of spacing 1 on dyadic coordinates in a box of edge n + 1/2 — float arithmetic is
+        # exact, no rint argument is a half-integer, and MANY pair distances (1, 2, 3, …) are exactly bin edges: the histogram
+        # convention [a, b) (last bin closed) decides where they are counted
+        n, d = c["n"], c["d"]
+        idx = np.array(np.meshgrid(*[np.arange(n)] * d, indexing="ij")).reshape(d, -1).T
+        pos = idx.astype(float) + 0.25
+        types = (idx.sum(axis=1) % 2 + 1).astype(int)
+        L = np.full(d, n + 0.5)
+    else:
+        pos, types, L = scale.scale_arrays(c)
     N, d, delta = c["N"], c["d"], float(c["rdelta"])
     maxbin = int(L.min() / 2.0 / delta)
     if c["skind"] == "bool":
@@ -988,7 +1014,7 @@ def failing_scale(c):
         n = N
         ctype = None
     tot, wsum, margin = scale.pair_hist(pos, L, delta, maxbin, w)
-    if margin < 1e-9:
+    if margin < 1e-9 and not c.get("tie"):
         return ("skip", "margin")
     V = float(np.prod(L))
     exp = {"r": [(k + 0.5) * delta for k in range(maxbin)],
